@@ -645,7 +645,7 @@ def rule_i(ctx, fa, ta, acc_f, acc_t, ls):
 
 def run(ctx):
     from .common import rule_abs_tolerance
-    rule_abs_tolerance(ctx, "C08.j", [f for f in ctx.model.cls(WAS, BASE).methods.values()], "all formulations must agree for every positive weighting and right-hand side")
+    rule_abs_tolerance(ctx, "C08.j", [f for f in ctx.model.cls(WAS, BASE).methods.values()] + [f for k in ctx.model.mod("darsia.utils.linalg").classes.values() for f in k.methods.values()], "all formulations must agree for every positive weighting and right-hand side")
     m = ctx.model
     ctx.consult(WAS)
     base = m.cls(WAS, BASE)
